@@ -57,6 +57,9 @@ def same_selection(rng, docs, base, ck, alt, ak):
     return a == b, len(a)
 
 
+KF_DASHES = 'custom-name-escaped-leading-dashes'
+
+
 def custom_name_spellings(chk, rng, docs, cases, py_bad, quick):
     """Sub-check (3) of RULE: spellings of custom pseudo-class names, as keys of `custom=` and as references."""
     stats = {}
@@ -145,7 +148,14 @@ def custom_name_spellings(chk, rng, docs, cases, py_bad, quick):
                 except Exception as e:
                     example = example or {'pattern': alt, 'custom': ak, 'outcome': f'{type(e).__name__}: {str(e).splitlines()[0]}'}
     chk.notes['custom_name_escaped_leading_dashes'] = {'spellings_tried': tried, 'compiled_equal_to_literal_dashes': equal,
-                                                       'first_rejected': example, 'judged': False}
+                                                       'first_rejected': example, 'judged': True}
+    if equal < tried:
+        kf = chk.is_known(KF_DASHES)
+        if kf:
+            chk.known_finding(KF_DASHES, kf['text'] + f' [{tried - equal} of {tried} such spellings of this run]')
+        else:
+            chk.violation('dashes0', {'what': 'a custom pseudo-class name whose leading dashes are written as CSS escapes is not '
+                                              'read as the same name', **(example or {})}, concrete=True)
     chk.coverage['custom_names'] = cov
 
 
